@@ -746,6 +746,176 @@ def check_fmt_spec(ctx, unit):
                  "%d failure edges each lead to an echo" % (len(echo), fails), f)
 
 
+def check_positional_fetch(ctx, unit, rule="E.positional-fetch-type"):
+    """pop_arg<T> for a positional directive %N$: the va_list is consumed in order, so positions below N that were not
+    seen yet are pulled as well and cached -- but pulled with the type T of the CURRENT directive.  "%2$d %1$s" pulls the
+    char* of position 1 with va_arg(int).  A position may only be pulled with its own directive's type (which needs a
+    pre-scan of the format string)."""
+    ctx.rule(rule, "pop_arg: no variadic argument is pulled from the va_list inside a loop over argument positions (every "
+             "position is pulled with the type of its own directive)", 1)
+    fs = [f for f in unit.functions if f.uq == "frg::pop_arg"]
+    if not fs:
+        raise AnalysisBroken("anchor vanished: pop_arg")
+    from .inline import inline_variant
+    bad = {}
+    for f0 in fs:
+        f = inline_variant(unit, f0, lambda cal: cal.get("kind") == "op" and cal.get("op") == "()" and "pop_arg" in (cal.get("uq") or ""))
+        loops = flow.natural_loops(f)
+        for n in f.all_nodes():
+            if n.kind == "VAArgExpr":
+                pos = f.positions()
+                for lp in loops:
+                    if lp.contains(n):
+                        bad.setdefault(f0.get("targs", ""), n.loc)
+    ctx.inst(rule, "frg::pop_arg: positional cache fill", not bad, fs[0].loc,
+             ("va_arg inside the loop over positions num_args..arg_pos (%d instantiations, e.g. pop_arg%s at %s): lower positions are pulled with "
+              "the current directive's type" % (len(bad), sorted(bad)[0], bad[sorted(bad)[0]])) if bad else
+             "no position is pulled on behalf of another directive", fs[0])
+
+
+def check_magnitude_unsigned(ctx, unit, rule="B.magnitude-unsigned"):
+    """print_int<T>: on the negative arm the magnitude handed to print_digits must have an UNSIGNED type.  For T narrower
+    than int, `~static_cast<make_unsigned_t<T>>(x) + 1` is computed in (signed) int after integer promotion: the
+    "magnitude" is negative and print_digits indexes its digit table with a negative remainder."""
+    ctx.rule(rule, "print_int: for every signed argument type the value passed to print_digits on the negative arm has an unsigned "
+             "type (integer promotion must not turn the two's-complement magnitude back into a negative int)", 3)
+    fs = [f for f in unit.functions if f.name == "print_int" and f.uq.startswith("frg::_fmt_basics")]
+    if not fs:
+        raise AnalysisBroken("anchor vanished: _fmt_basics::print_int")
+    for f in fs:
+        ps = f.params()
+        num = ps[1] if len(ps) > 1 else None
+        if num is None:
+            continue
+        tnode = None
+        for n in f.all_nodes():
+            if n.kind == "DeclRefExpr" and n.d.get("d") == num["d"]:
+                tnode = n
+                break
+        if tnode is None or tnode.get("sgn") is not True:
+            continue           # unsigned argument types never take the negative arm
+        calls = [n for n in f.events() if n.is_call() and n.callee and n.callee["n"] == "print_digits" and len(n.args) > 2]
+        k = 0
+        for c in calls:
+            neg = const_bool_arg(c.args[2])
+            if neg is not True:
+                continue
+            k += 1
+            a = c.args[1].strip()
+            ok = a.get("sgn") is False
+            ctx.inst(rule, "%s: negative arm" % f.sig.split("(")[0] + "<%s>" % num["t"], ok, c.loc,
+                     "magnitude has type %s (%s) for argument type %s" % (a.get("t"), "unsigned" if ok else "SIGNED: negative after promotion",
+                                                                         num["t"]), f)
+        if k == 0:
+            raise AnalysisBroken("anchor vanished: negative arm of print_int<%s>" % num["t"])
+
+
+def check_float_lengths(ctx, unit, rule="B6.float-length"):
+    """print_float adds the caller's precision (anything the printf parser accepts, up to INT_MAX) to the digit count:
+    the sums must not overflow int."""
+    from . import rules_bounds as RB
+    ctx.rule(rule, "print_float: no signed addition involving the width / precision parameters can overflow for any value "
+             "in [0, INT_MAX] that the directive parser lets through", 1)
+    fs = [f for f in unit.functions if f.name == "print_float" and f.uq.startswith("frg::_fmt_basics")]
+    if not fs:
+        raise AnalysisBroken("anchor vanished: _fmt_basics::print_float")
+    for f in fs[:1]:
+        dom = {p["d"]: RB.Iv(0, (1 << 31) - 1) for p in f.params() if p["t"] == "int"}
+        res = RB.check_no_wrap_adds(ctx, rule, f, dom, label="frg::_fmt_basics::print_float", signed=True)
+        if not res:
+            raise AnalysisBroken("anchor vanished: length arithmetic of print_float")
+
+
+def check_grouping_cursor(ctx, unit, rule="B.grouping-cursor"):
+    """print_digits walks locale_opts.grouping (a NUL-terminated string of group sizes) with an index.  The index starts
+    at 0, may only move forward past an entry known to be non-NUL, and may move back only to an entry it has already
+    visited: exactly as many decrements as increments on every path, never below its start.  Decided by a path-sensitive
+    count of the index relative to its start (bounded abstract counter) together with the dominating test of the next
+    entry before each increment."""
+    ctx.rule(rule, "print_digits: the index into the locale's grouping string never drops below 0 (each decrement is matched by an "
+             "earlier increment on every path) and only advances past entries tested non-zero", 2)
+    fs = [f for f in unit.functions if f.name == "print_digits" and f.uq.startswith("frg::_fmt_basics")]
+    if not fs:
+        raise AnalysisBroken("anchor vanished: _fmt_basics::print_digits")
+    done = set()
+    for f in fs:
+        # the lambdas of print_digits capture the index by reference: analyse print_digits with them folded in
+        from .inline import inline_variant
+        fi = inline_variant(unit, f, lambda cal: cal.get("kind") == "op" and cal.get("op") == "()" and "print_digits" in (cal.get("uq") or ""), rounds=40)
+        subs = [n for n in fi.events() if n.kind == "ArraySubscriptExpr" and path(n.children[0]) and path(n.children[0])[-1] == "grouping"]
+        if not subs:
+            raise AnalysisBroken("anchor vanished: subscripts of the grouping string in print_digits")
+        idx = set()
+        for n in subs:
+            for x in n.children[1].walk():
+                if x.kind == "DeclRefExpr" and x.get("local"):
+                    idx.add(std_unwrap(x).d["d"] if std_unwrap(x).kind == "DeclRefExpr" else x.d["d"])
+        key = f.sig.split("(")[0] + "<" + (f.params()[1]["t"] if len(f.params()) > 1 else "?") + ">"
+        if key in done:
+            continue
+        done.add(key)
+        bad = []
+        CAP = 3
+
+        def transfer(n, st, fi=fi):
+            if n.kind == "UnaryOperator" and n.op in ("++", "--"):
+                t = std_unwrap(n.children[0])
+                if t.kind == "DeclRefExpr" and t.d["d"] in idx:
+                    if n.op == "++":
+                        return [min(st + 1, CAP)]
+                    guarded = False
+                    for cond, truth in flow.facts_at(fi, n.id):
+                        rel = flow.fact_relation(cond, truth)
+                        if rel is None:
+                            continue
+                        a_, op_, b_ = rel
+                        ua, ub = std_unwrap(a_), std_unwrap(b_)
+                        # 0 < g, 1 <= g, g != 0
+                        if op_ == "<" and ua.cv() == 0 and ub.kind == "DeclRefExpr" and ub.d["d"] in idx:
+                            guarded = True
+                        if op_ == "<=" and ua.cv() == 1 and ub.kind == "DeclRefExpr" and ub.d["d"] in idx:
+                            guarded = True
+                        if op_ == "!=" and ((ua.cv() == 0 and ub.kind == "DeclRefExpr" and ub.d["d"] in idx) or
+                                            (ub.cv() == 0 and ua.kind == "DeclRefExpr" and ua.d["d"] in idx)) and not (n.children[0].get("sgn")):
+                            guarded = True
+                    if guarded:
+                        return [max(st - 1, 0)] if st < CAP else [CAP, CAP - 1]
+                    if st == 0:
+                        bad.append("index decremented at %s on a path where it is still at its start: grouping[-1] is read next" % n.loc)
+                        return [0]
+                    # a capped counter may stand for any larger value: stay conservative
+                    return [st - 1] if st < CAP else [CAP, CAP - 1]
+            if n.kind == "CompoundAssignOperator":
+                t = std_unwrap(n.children[0])
+                if t.kind == "DeclRefExpr" and t.d["d"] in idx:
+                    bad.append("index changed by %s at %s" % (n.op, n.loc))
+            return [st]
+        flow.run(fi, [0], transfer, None, limit=100000)
+        # increments only past an entry known non-zero
+        for n in fi.events():
+            if n.kind == "UnaryOperator" and n.op == "++":
+                t = std_unwrap(n.children[0])
+                if t.kind == "DeclRefExpr" and t.d["d"] in idx:
+                    ok = False
+                    for cond, truth in flow.facts_at(fi, n.id):
+                        for x in cond.walk():
+                            if x.kind == "ArraySubscriptExpr" and path(x.children[0]) and path(x.children[0])[-1] == "grouping" and "+" in canon(x.children[1]):
+                                v = flow.sem_eval(cond, lambda y: 1 if y.strip().id == x.id or (y.strip().kind == "ArraySubscriptExpr" and canon(y.strip()) == canon(x)) else None)
+                                if v is not None and bool(v) == truth:
+                                    ok = True
+                    if not ok:
+                        bad.append("index advanced at %s without the next entry known to be non-zero (could run past the terminator)" % n.loc)
+        ctx.inst(rule, key, not bad, f.loc, "; ".join(sorted(set(bad))[:3]) if bad else
+                 "%d subscripts of grouping; index never below its start, advances only past non-zero entries" % len(subs), f)
+
+
+def const_bool_arg(n):
+    n = n.strip()
+    if n.kind == "CXXBoolLiteralExpr":
+        return bool(n.get("bv"))
+    return None
+
+
 def check_pop_arg(ctx, unit):
     """printf's positional-argument cache (pop_arg): the cache index is a real position, and the count of
     arguments already pulled from the va_list never goes down (lowering it makes a later directive pull
